@@ -242,6 +242,13 @@ def obligations(tier):
     dup_kinds = ["altloc-pair-A-first", "altloc-pair-B-first", "altloc-pair-alias-name", "atom-same-residue", "atom-insertion-code", "atom-new-residue"]
     for k in range(len(dup_kinds)):
         obs.append(Obligation(f"ingest-first={dup_kinds[k]}", c07.h_records, dict(nlines=3 if tier == "quick" else 4, kinds=dup_kinds, models="plain", drop=False, first=k), group="ingest", time_cap=1500, max_paths=100000))
+    # --drop-water removes water records only: no other residue (RNA "A", hydroxide "OH", ...) vanishes with them (C07's harness)
+    obs += c07._drop_name_obligations()
+    # the carboxylic-acid optimisation ends with the atom set of the topology whatever sequence of attempts ran (C14's site harness)
+    from . import c14
+
+    for resname in ("ASH", "GLH"):
+        obs.append(Obligation(f"carboxylic-completion-{resname}", c14.h_carboxylic_site, dict(resname=resname, prop="C03"), group="completion", time_cap=1500, max_paths=100000))
     return obs
 
 
